@@ -56,7 +56,9 @@ func ListenUnix(network string, laddr *UnixAddr) (*UnixListener, error) {
 type Fault struct {
 	// Kind: "err" (operation fails, nothing transferred), "eof" (read returns
 	// io.EOF now), "data+eof" (read returns the available data together with
-	// io.EOF), "short" (write transfers half the buffer, then fails),
+	// io.EOF), "garbage" (read returns bytes that are not what the peer sent:
+	// a protocol error on a live connection), "short" (write transfers half
+	// the buffer, then fails),
 	// "peerclose" (the peer end is closed just before the operation),
 	// "localclose" (this end is closed just before the operation).
 	Kind string
@@ -74,7 +76,11 @@ type MemConn struct {
 	rd, wr *half
 	peer   *MemConn
 	closed bool
-	broken error // sticky error after an injected fault
+	// sticky errors after an injected fault: a read-side failure (error, EOF,
+	// corrupted data) leaves the write side usable until the local Close, as
+	// on TCP; a write-side failure breaks both directions.
+	rbroken error
+	wbroken error
 	// Cap > 0 bounds the bytes buffered towards the peer: Write blocks while
 	// that many bytes are pending.
 	Cap int
@@ -171,22 +177,38 @@ func (c *MemConn) Read(p []byte) (int, error) {
 	c.applyCloseFault(f)
 	if f != nil && f.Kind == "err" {
 		vrt.Yield()
-		c.broken = errors.New("vnet: injected read error")
-		return 0, c.broken
+		c.rbroken = errors.New("vnet: injected read error")
+		return 0, c.rbroken
 	}
 	if f != nil && f.Kind == "eof" {
 		vrt.Yield()
-		c.broken = io.EOF
+		c.rbroken = io.EOF
 		return 0, io.EOF
 	}
+	if f != nil && f.Kind == "garbage" && len(p) != 28 {
+		// only a frame header can be recognised as corrupted by the
+		// protocol (payload bytes carry no checksum): not a header read, no fault
+		if c.FaultAt == c.ops-1 {
+			c.FaultAt = -1
+		}
+		f = nil
+	}
+	if f != nil && f.Kind == "garbage" {
+		vrt.Yield()
+		for i := range p {
+			p[i] = 0xAB
+		}
+		c.OpLog = append(c.OpLog, OpRec{"read", len(p), true})
+		return len(p), nil
+	}
 	vrt.Block(vrt.KIO, "read "+c.name, c, func() bool {
-		return len(c.rd.data) > 0 || c.rd.wclosed || c.closed || c.broken != nil
+		return len(c.rd.data) > 0 || c.rd.wclosed || c.closed || c.rbroken != nil
 	})
 	if c.closed {
 		return 0, io.ErrClosedPipe
 	}
-	if c.broken != nil {
-		return 0, c.broken
+	if c.rbroken != nil {
+		return 0, c.rbroken
 	}
 	if len(c.rd.data) == 0 {
 		return 0, io.EOF
@@ -209,7 +231,7 @@ func (c *MemConn) Read(p []byte) (int, error) {
 		vrt.Flag("io:read-completed-while-own-write-in-progress")
 	}
 	if f != nil && f.Kind == "data+eof" {
-		c.broken = io.EOF
+		c.rbroken = io.EOF
 		c.OpLog = append(c.OpLog, OpRec{"read", n, true})
 		return n, io.EOF
 	}
@@ -225,24 +247,25 @@ func (c *MemConn) Write(p []byte) (int, error) {
 	c.applyCloseFault(f)
 	if f != nil && f.Kind == "err" {
 		vrt.Yield()
-		c.broken = errors.New("vnet: injected write error")
-		return 0, c.broken
+		c.wbroken = errors.New("vnet: injected write error")
+		c.rbroken = c.wbroken
+		return 0, c.wbroken
 	}
 	vrt.Block(vrt.KIO, "write "+c.name, c, func() bool {
-		return c.Cap == 0 || len(c.wr.data) < c.Cap || c.closed || c.wr.rclosed || c.broken != nil
+		return c.Cap == 0 || len(c.wr.data) < c.Cap || c.closed || c.wr.rclosed || c.wbroken != nil
 	})
 	if c.closed || c.wr.rclosed {
 		return 0, io.ErrClosedPipe
 	}
-	if c.broken != nil {
-		return 0, c.broken
+	if c.wbroken != nil {
+		return 0, c.wbroken
 	}
 	q := p
 	var ferr error
 	if f != nil && f.Kind == "short" {
 		q = p[:len(p)/2]
 		ferr = errors.New("vnet: injected short write")
-		c.broken = ferr
+		c.wbroken, c.rbroken = ferr, ferr
 	}
 	c.wr.data = append(c.wr.data, q...)
 	if c.Tap != nil {
